@@ -207,6 +207,25 @@ def sign_variants(case):
     return out
 
 
+def cancellation_cases(p=None):
+    """linear combinations in which terms cancel exactly (x - x, (x+y+z) - x, (x+1) - 1, 2x + y - x - x), coefficients that are exact
+    multiples of the prime ((x/3)*3 - x, x - (x/3)*3, x*(2p), values -p, -2p), and combinations over the same variables that differ in one
+    coefficient only (-1 against -2, 1 against 2); every result is used in a constraint"""
+    p = p or progs.BN
+    out = []
+    def case(stmts, ins, tag): out.append(dict(cfg=dict(p=p, n=8, res=2, ign=0), prog=[["input", 0, "priv", 0], ["input", 1, "priv", 1], ["input", 2, "priv", 2]] + stmts, ins=ins, matrix="cancellation:" + tag))
+    c = lambda r, k: ["const", r, ["int", k]]
+    case([["bin", 3, "add", 0, 1], ["bin", 4, "add", 3, 2], ["bin", 5, "sub", 4, 0], ["bin", 6, "mul", 5, 5], ["bin", 7, "sub", 0, 0], ["bin", 8, "mul", 7, 1]], [3, 4, 5, 1], "x+y+z-x")
+    case([c(3, 1), ["bin", 4, "add", 0, 3], ["bin", 5, "sub", 4, 3], ["bin", 6, "mul", 5, 1], c(7, 2), ["bin", 8, "mul", 0, 7], ["bin", 9, "add", 8, 1], ["bin", 10, "sub", 9, 0], ["bin", 11, "sub", 10, 0], ["bin", 12, "mul", 11, 11]], [3, 4, 5, 1], "x+1-1")
+    case([c(3, 3), ["bin", 4, "truediv", 0, 3], ["bin", 5, "mul", 4, 3], ["bin", 6, "sub", 5, 0], ["bin", 7, "mul", 6, 1], ["bin", 8, "sub", 0, 5], ["bin", 9, "mul", 8, 1]], [6, 4, 5, 1], "(x/3)*3-x")
+    case([c(3, 2 * p), ["bin", 4, "mul", 0, 3], ["bin", 5, "mul", 4, 1], c(6, -p), ["bin", 7, "mul", 1, 6], ["bin", 8, "add", 7, 0], ["bin", 9, "mul", 8, 8]], [3, 4, 5, 1], "x*2p")
+    case([c(3, 1), c(4, 2), c(5, 3), ["bin", 6, "sub", 0, 3], ["bin", 7, "sub", 0, 4], ["bin", 8, "sub", 0, 5], ["bin", 9, "mul", 6, 7], ["bin", 10, "mul", 9, 8],
+          ["bin", 11, "sub", 0, 1], ["bin", 12, "sub", 11, 1], ["bin", 13, "mul", 11, 2], ["bin", 14, "mul", 12, 2]], [2, 4, 5, 1], "(x-1)(x-2)(x-3)")
+    case([["bin", 3, "mul", 0, 1], ["bin", 4, "mul", 3, 2]], [-p, -4, p, 1], "values-p")
+    case([["bin", 3, "mul", 0, 1], ["bin", 4, "mul", 3, 2]], [-2 * p, 3, -p - 1, 1], "values-2p")
+    return out
+
+
 def suppressed_operator_cases(tier="quick", n=8, p=None):
     """operators on operands for which the run-time check would raise (inexact / zero / negative divisor, operands beyond the
     bitlength, negative shift operands), reached where the library suppresses the error: ignore_errors(True), a false guard,
